@@ -1,4 +1,5 @@
 import AdeuModel.Lemmas.Mapper
+import AdeuModel.Lemmas.ExtractTags
 /-
 C03 — reader offsets and writer offsets denote the same characters.
 
@@ -7,7 +8,7 @@ C03 — reader offsets and writer offsets denote the same characters.
 normalised document, as the code does.
 -/
 namespace Adeu.Props.C03
-open Adeu Adeu.Doc
+open Adeu Adeu.Doc Adeu.Markup
 
 /-- The text a client reads and the text the engine indexes are the same string — raw and accepted
 view, every document (heading prefixes, bold/italic markers, CriticMarkup wrappers, change/comment
@@ -25,5 +26,14 @@ theorem C03_paragraph_text_eq (clean : Bool) (cm : CMap) (pp : PPath) (p : Para)
 /-- Offsets are prefix sums: the span list is a partition of the indexed text. -/
 theorem C03_spans_partition (clean : Bool) (d : Document) :
     (buildSpans clean d).flatMap (·.text) = mapperText clean d := rfl
+
+/-- Which characters an offset of the indexed text can denote: the text the engine indexes (raw view) is the
+rendering of a flat CriticMarkup segment list whose text characters are, in order, the tagged characters of the
+document (`docTagged`: every run's formatted segment tagged by its open marks, heading prefixes and separators
+tagged plain) - everything else in the indexed text is a delimiter or metadata. Every document, no hypothesis. -/
+theorem C03_indexed_text_is_annotated_document (d : Document) :
+    ∃ segs : List Seg, mapperText false d = render segs ∧ tagsOf segs = docTagged d := by
+  rw [mapperText_eq_extractText]
+  exact doc_tagged d
 
 end Adeu.Props.C03
